@@ -129,3 +129,38 @@ def calls_in_nodes(nodes, pred):
             if isinstance(x, ast.Call) and pred(x):
                 out.append(x)
     return out
+
+
+def try_body_may_raise(func):
+    """may_raise function for CFG(): a statement or test that contains a call, a subscript or an attribute access on a
+    non-self name and sits in the body of a `try` may raise what the handlers of that `try` catch - so every handler is
+    reachable from every such statement of its `try` body (sound for must-analyses over exits: handlers are never ignored)"""
+    from .core import parent
+
+    def enclosing_tries(node):
+        out = []
+        cur = node
+        while cur is not None and cur is not func:
+            p = parent(cur)
+            if isinstance(p, ast.Try) and any(cur is x for x in p.body):
+                out.append(p)
+            cur = p
+        return out
+
+    def mr(astnode):
+        if astnode is None:
+            return ()
+        risky = any(isinstance(x, (ast.Call, ast.Subscript)) for x in ast.walk(astnode))
+        if not risky:
+            return ()
+        names = []
+        for t in enclosing_tries(astnode):
+            for h in t.handlers:
+                if h.type is None:
+                    names.append('BaseException')
+                elif isinstance(h.type, ast.Tuple):
+                    names.extend(src(e).split('.')[-1] for e in h.type.elts)
+                else:
+                    names.append(src(h.type).split('.')[-1])
+        return tuple(dict.fromkeys(names))
+    return mr
